@@ -1749,8 +1749,8 @@ class ShortcutNode(ListNode):
 
         # REPEAT
         elif self._type == Shortcuts.REPEAT:
-            if len(self.nodes) == 0 and node.value is not None:
-                return True
+            if len(self.nodes) == 0:
+                return node.value is not None
             # The text written is ``nodes[0] nR``: every node has to match the first one.
             # (Matching the neighbour only is not enough: closeness is not transitive.)
             if direction == 1:
